@@ -319,7 +319,8 @@ pub fn conform<const K: usize>(t: &AffTree<K>, s: &Snap, x: &[Q], exact_values: 
 
 /// Conformance at the witness of a face and, for every hyperplane the face lies on, at points
 /// 2^-30 and 2^-40 to either side of it (distances far below the library's 1e-8 containment
-/// tolerance): the real evaluator must take the documented branch there too.
+/// tolerance) and, for axis-parallel hyperplanes, at the neighbouring floating-point numbers:
+/// the real evaluator must take the documented branch there too.
 pub fn conform_face<const K: usize>(t: &AffTree<K>, s: &Snap, face: &crate::regions::Face, exact_values: bool) -> (u64, Option<String>) {
     let mut n = 0u64;
     let mut err = None;
@@ -364,6 +365,38 @@ pub fn conform_face<const K: usize>(t: &AffTree<K>, s: &Snap, face: &crate::regi
                     Ok(false) => {}
                     Err(e) => err = Some(format!("near the boundary (x = {:?}): {e}", p.iter().map(|q| q.to_f64()).collect::<Vec<_>>())),
                 }
+            }
+        }
+    }
+    // One unit in the last place beyond the hyperplane (2^-100 when the coordinate is 0). The sign of the real f64
+    // residual is provably that of the exact one when every row that uses the moved coordinate j has no other
+    // non-zero coefficient and a power of two as coefficient: c*x_j is exact and fl(u - b) has the sign of u - b;
+    // rows that do not use j see unchanged operands (exact by the guard above).
+    let pow2 = |v: &Q| -> bool { [4i64, 2, 1].iter().any(|k| *v == Q::int(*k) || *v == Q::int(-*k)) || [2i64, 4].iter().any(|d| *v == Q::frac(1, *d) || *v == Q::frac(-1, *d)) };
+    for (f, sgn) in &face.cons {
+        if *sgn != 0 {
+            continue;
+        }
+        let nz: Vec<usize> = (0..f.a.len()).filter(|i| !f.a[*i].is_zero()).collect();
+        if nz.len() != 1 || !pow2(&f.a[nz[0]]) {
+            continue;
+        }
+        let j = nz[0];
+        let rows_ok = s.nodes.values().filter(|n| !n.isleaf).all(|n| {
+            n.mat.iter().all(|row| row[j].is_zero() || (pow2(&row[j]) && row.iter().enumerate().all(|(i, v)| i == j || v.is_zero())))
+        });
+        if !rows_ok {
+            continue;
+        }
+        let wj = face.w[j].to_f64();
+        for up in [true, false] {
+            let pj = if wj == 0.0 { if up { 2f64.powi(-100) } else { -(2f64.powi(-100)) } } else if up { wj.next_up() } else { wj.next_down() };
+            let mut p = face.w.clone();
+            p[j] = Q::from_f64(pj);
+            match conform_opt(t, s, &p, false, false) {
+                Ok(true) => n += 1,
+                Ok(false) => {}
+                Err(e) => err = Some(format!("one unit in the last place beside the boundary (x[{j}] = {:e}, neighbour of {wj}): {e}", pj)),
             }
         }
     }
